@@ -31,6 +31,9 @@ def parseErr1 (s : String) : Option Err :=
   else if s == "builder" then some .builder
   else if s == "unreplay" then some .unreplayable
   else if s == "digest" then some .digest
+  else if s == "output" then some .output
+  else if s == "ctxcanceled" then some .ctxCanceled
+  else if s == "ctxdone" then some .ctxDone
   else if s.startsWith "s" then (s.drop 1).toNat?.map fun n => .stage n
   else none
 
@@ -47,6 +50,18 @@ def showErr : Option Err → String
   | some .builder => "builder"
   | some .unreplayable => "unreplay"
   | some .digest => "digest"
+  | some .output => "output"
+  | some .ctxCanceled => "ctxcanceled"
+  | some .ctxDone => "ctxdone"
+
+/-- response-body transformer outcome: `-` none installed, `k` accepts, `n<err>` fails returning a
+nil body, `b<err>` fails returning a body -/
+def parseXf (s : String) : Option Xf :=
+  if s == "-" then some .none
+  else if s == "k" then some .ok
+  else if s.startsWith "n" then (parseErr1 (s.drop 1).toString).map fun e => .fail e false
+  else if s.startsWith "b" then (parseErr1 (s.drop 1).toString).map fun e => .fail e true
+  else none
 
 def showCodec : Option Codec → String
   | none => "-"
